@@ -13,10 +13,43 @@ DFKNTsize(int32 number_type)
     return g_csize;
 }
 
+/* ---- "proved" variant: xdim, ncomp and the component size are constants of the run (GRP_XD, GRP_NC,
+   GRP_CS), ydim is symbolic (1..GRP_YMAX); the row loop of GRIil_convert runs under the loop contract
+   of loops/mfgr.loops, the inner loops (constant trip counts) are unwound.  The macros below are
+   the text of that loop invariant. ---- */
+#ifndef GRP_NC
+#define GRP_NC 2
+#endif
+#ifndef GRP_CS
+#define GRP_CS 1
+#endif
+#ifndef GRP_XD
+#define GRP_XD 2
+#endif
+#define GRP_YMAX 1000000
+/* c * ydim without a symbolic product (c < 3) */
+#define GRP_CY(c, yd) ((c) == 0 ? 0L : (c) == 1 ? (long)(yd) : 2L * (long)(yd))
+#define GRP_IDX(il, x, y, c, yd)                                                                     \
+    ((il) == MFGR_INTERLACE_PIXEL  ? (((long)(y)*GRP_XD + (x)) * GRP_NC + (c))                         \
+     : (il) == MFGR_INTERLACE_LINE ? (((long)(y)*GRP_NC + (c)) * GRP_XD + (x))                         \
+                                   : ((GRP_CY(c, yd) + (long)(y)) * GRP_XD + (x)))
+/* byte offset of the component-k cursor at the start of row i: base + i * bytes per row step */
+#define GRP_BASE(il, k, yd)                                                                          \
+    ((il) == MFGR_INTERLACE_PIXEL ? (long)(k)*GRP_CS : (il) == MFGR_INTERLACE_LINE ? (long)(k)*GRP_XD * GRP_CS : GRP_CY(k, yd) * GRP_XD * GRP_CS)
+#define GRP_STEP(il) ((il) == MFGR_INTERLACE_COMPONENT ? (long)GRP_XD * GRP_CS : (long)GRP_XD * GRP_NC * GRP_CS)
+#define GRP_CUR(k, row)                                                                              \
+    (in_comp_ptr[k] == (const uint8 *)inbuf + (GRP_BASE(inil, k, dims[1]) + (long)(row)*GRP_STEP(inil)) &&                \
+     out_comp_ptr[k] == (uint8 *)outbuf + (GRP_BASE(outil, k, dims[1]) + (long)(row)*GRP_STEP(outil)))
+#define GRP_ROW_INV(row)                                                                             \
+    (0 <= (row) && (row) <= dims[1] && GRP_CUR(0, row) && (GRP_NC < 2 || GRP_CUR(GRP_NC < 2 ? 0 : 1, row)) &&                \
+     (GRP_NC < 3 || GRP_CUR(GRP_NC < 3 ? 0 : 2, row)) &&                                                                  \
+     (g_y < (row) ==> ((const uint8 *)outbuf)[GRP_IDX(outil, g_x, g_y, g_c, dims[1]) * GRP_CS + g_b] ==                   \
+                          ((const uint8 *)inbuf)[GRP_IDX(inil, g_x, g_y, g_c, dims[1]) * GRP_CS + g_b]))
+int32 g_x, g_y, g_c, g_b;
+
 #include "mfgr.c"
 
 /* ghost pixel component (x,y,c), ghost byte inside the component, ghost byte of the whole buffer */
-int32 g_x, g_y, g_c, g_b;
 int32 g_i;
 
 /* The three address maps, written from the interlace DEFINITIONS (element index, in components):
@@ -30,6 +63,15 @@ int32 g_i;
     ((il) == MFGR_INTERLACE_PIXEL  ? IL_PIXEL_IDX(x, y, c, xd, yd, nc)                                \
      : (il) == MFGR_INTERLACE_LINE ? IL_LINE_IDX(x, y, c, xd, yd, nc)                                 \
                                    : IL_COMP_IDX(x, y, c, xd, yd, nc))
+#ifdef GRP_PROVED
+#undef IL_IDX
+#define IL_IDX(il, x, y, c, xd, yd, nc) GRP_IDX(il, x, y, c, yd)
+#define GR_MAXX GRP_XD
+#define GR_MAXY GRP_YMAX
+#else
+#define GR_MAXX GR_MAXDIM
+#define GR_MAXY GR_MAXDIM
+#endif
 #define IL_VALID(il) ((il) == MFGR_INTERLACE_PIXEL || (il) == MFGR_INTERLACE_LINE || (il) == MFGR_INTERLACE_COMPONENT)
 #define IL_TOTAL(dims, ncomp) ((dims)[0] * (dims)[1] * (ncomp)*g_csize)
 
@@ -71,7 +113,7 @@ int GRIil_convert(const void *inbuf, gr_interlace_t inil, void *outbuf, gr_inter
     /* callers (GRwriteimage/GRreadimage/GRreadlut/chunk I/O) pass validated interlaces, count[] >= 1,
        ncomps >= 1 and two distinct buffers of exactly xdim*ydim*ncomp*size bytes */
     __CPROVER_requires(IL_VALID(inil) && IL_VALID(outil))
-    __CPROVER_requires(dims != NULL && dims[0] >= 1 && dims[0] <= GR_MAXDIM && dims[1] >= 1 && dims[1] <= GR_MAXDIM)
+    __CPROVER_requires(dims != NULL && dims[0] >= 1 && dims[0] <= GR_MAXX && dims[1] >= 1 && dims[1] <= GR_MAXY)
     __CPROVER_requires(ncomp >= 1 && ncomp <= GR_MAXCOMP && (g_csize == 1 || g_csize == 2))
     __CPROVER_requires(inbuf != NULL && outbuf != NULL)
     __CPROVER_requires(0 <= g_x && g_x < dims[0] && 0 <= g_y && g_y < dims[1] && 0 <= g_c && g_c < ncomp && 0 <= g_b && g_b < g_csize)
@@ -154,6 +196,34 @@ h_GRIil_convert(void)
               "il_convert pixel->line, one column");
 #endif
     H4V_CANARY("GRIil_convert end");
+}
+
+/* proved variant: ydim symbolic up to GRP_YMAX, exact-size buffers, xdim/ncomp/size constants */
+void
+h_GRIil_convert_p(void)
+{
+    mk_ghosts();
+    H4V_ND(gr_interlace_t, inil);
+    H4V_ND(gr_interlace_t, outil);
+    H4V_ND(int32, ydim);
+    H4V_ND(int32, nt);
+#ifdef GR_INIL
+    H4V_ASSUME(inil == GR_INIL);
+#endif
+#ifdef GR_OUTIL
+    H4V_ASSUME(outil == GR_OUTIL);
+#endif
+    H4V_ASSUME(ydim >= 1 && ydim <= GRP_YMAX);
+    g_csize = GRP_CS;
+    int32 dims[2];
+    dims[0]     = GRP_XD;
+    dims[1]     = ydim;
+    int32 total = ydim * (GRP_XD * GRP_NC * GRP_CS);
+    H4V_ND_BUF(uint8, pin, total, GR_CAP);
+    H4V_ND_BUF(uint8, pout, total, GR_CAP);
+    int r = GRIil_convert(pin, inil, pout, outil, dims, GRP_NC, nt);
+    H4V_COVER(r == SUCCEED && ydim > 100 && inil != outil, "il_convert proved variant, many rows");
+    H4V_CANARY("GRIil_convert_p end");
 }
 
 /* convert(B->A) after convert(A->B) is the identity (real code twice, harness-level) */
